@@ -39,6 +39,7 @@ def run_rules(mod, chk):
         generic.whole_collection_loops(chk)
         generic.index_truthiness(chk)
         generic.delay_names(chk)
+        generic.round_once_last(chk)
     chk.repo.on_func = None
     return chk
 
